@@ -432,19 +432,41 @@ fn sched_for(r: &mut Rng, len: usize) -> Vec<usize> {
     s
 }
 
+/// boundary lengths: small values, and every power of two / multiple of 0x1000 with offsets -1..=8
+/// (header sizes 2, 3, 4 and 7 shift where a body of a round size falls)
+fn boundary_lens(max: u32) -> Vec<u16> {
+    let mut v: Vec<u32> = (0..12).collect();
+    v.extend_from_slice(&[127, 128, 129, 255, 256, 257, 1499, 1500, 1501, 1502, 1503, 1504, 1505, 1507]);
+    let mut bases: Vec<u32> = (4..=16).map(|k| 1u32 << k).collect();
+    bases.extend((1..16).map(|k| k * 0x1000));
+    for b in bases {
+        for d in -1i64..=8 {
+            let x = b as i64 + d;
+            if x >= 0 {
+                v.push(x as u32);
+            }
+        }
+    }
+    v.extend_from_slice(&[max - 2, max - 1, max]);
+    v.retain(|x| *x <= max);
+    v.sort();
+    v.dedup();
+    v.into_iter().map(|x| x as u16).collect()
+}
+
 fn tpkt_len_quick(idx: u64, r: &mut Rng) -> u16 {
-    const B: [u16; 30] = [0, 1, 2, 3, 4, 5, 6, 7, 8, 9, 10, 11, 127, 128, 129, 255, 256, 257, 1499, 1500, 1501, 1503, 1504, 1505, 32767, 32768, 65533, 65534, 65535, 4096];
-    if (idx as usize) < B.len() * 4 {
-        B[idx as usize % B.len()]
+    let b = boundary_lens(65535);
+    if (idx as usize) < b.len() * 3 {
+        b[idx as usize % b.len()]
     } else {
         r.u16()
     }
 }
 
 fn fp_len_quick(idx: u64, r: &mut Rng) -> u16 {
-    const B: [u16; 20] = [0, 1, 2, 3, 4, 5, 6, 126, 127, 128, 129, 255, 256, 1502, 1503, 1504, 16383, 16384, 32766, 32767];
-    if (idx as usize) < B.len() * 4 {
-        B[idx as usize % B.len()]
+    let b = boundary_lens(32767);
+    if (idx as usize) < b.len() * 3 {
+        b[idx as usize % b.len()]
     } else {
         r.u16() & 0x7fff
     }
@@ -455,9 +477,9 @@ pub fn run(cfg: &Cfg) -> Report {
     let quick = cfg.quick();
     let mut total = Report::new();
     let plan: Vec<(u64, u64)> = vec![
-        (0, if quick { 2200 } else { 65536 * 2 }),
+        (0, if quick { 3 * boundary_lens(65535).len() as u64 + 1200 } else { 65536 * 2 }),
         (1, 128 * 256),
-        (2, if quick { 2200 } else { 32768 * 2 }),
+        (2, if quick { 3 * boundary_lens(32767).len() as u64 + 1200 } else { 32768 * 2 }),
         (3, cfg.n(12 * 200, 12 * 5000)),
         (4, cfg.n(40_000, 3_000_000)),
     ];
